@@ -191,6 +191,13 @@ impl<'a> Judge<'a> {
     }
 
     fn liveness(&self, out: &mut Vec<Finding>) {
+        if self.ex.blocked_during_report {
+            out.push(f(
+                "liveness",
+                "a tracing call waits for the collector while the reporter runs",
+                "a thread's first tracing call (queue registration) could not proceed while a collector cycle was inside Reporter::report",
+            ));
+        }
         match &self.ex.outcome {
             Outcome::Deadlock => out.push(f("liveness", "deadlock", "no actor enabled before all finished")),
             Outcome::Hang => out.push(f(
